@@ -166,8 +166,10 @@ def run_property(eng, prop, args):
     problems = []
     crashes = []
     gen_s = 0.0
+    gen_times = []
     for target, obs, probs, dt, err in gen:
         gen_s += dt
+        gen_times.append((dt, target))
         if err:
             crashes.append((target, err))
         for r in obs:
@@ -176,6 +178,9 @@ def run_property(eng, prop, args):
         for p in probs:
             problems.append(p)
     unique_names(records)
+    if getattr(args, 'verbose', False):
+        for dt, t in sorted(gen_times, reverse=True)[:6]:
+            print('   vcgen %6.1fs %s' % (dt, t))
     solve_records(records, args.timeout, args.jobs)
     records = settle_covers(records)
     return finish(eng, prop, tier, seed, targets, records, problems, crashes, missing, t0, gen_s, args)
